@@ -132,7 +132,8 @@ def r10_3(run):
     assigns = [n for n in own_nodes(fi.node) if isinstance(n, ast.Assign) and assigned_name(n) == "constant"]
     assigns = [a for a in assigns if cfg.node_for(a) is not None and cfg.reachable(cfg.node_for(a))]
     if not tests:
-        raise AnalysisError(f"{fi.short}: `constant is None` test not found")
+        run.ob("R10.3", loc(fi, fi.node), fi.short, "constant inference is guarded by `constant is None`", False,
+               "no `constant is None` test: an explicit constant=False is treated like 'not given' and can be overridden")
     for a in assigns:
         na = cfg.node_for(a)
         ok = any(cfg.edge_dominates(t, "true", na) for t in tests)
